@@ -629,6 +629,9 @@ class _EvalBuilder(_Builder):
                 r = self._maybe_inline(s, n)
                 if r is not None:
                     return r
+                r = self._map_fold(s, n)
+                if r is not None:
+                    return r
             return i._rewrite(s)
         if isinstance(n, ast.BoolOp) and not self.pure:
             # value-level and/or: evaluate left to right, stop at a deciding constant
@@ -717,12 +720,29 @@ class _EvalBuilder(_Builder):
                     return C(getattr(recv, f[2])(*[a[1] for a in args]))
                 except Exception:
                     return s
+            if isinstance(recv, str) and f[2] == "join" and len(args) == 1 and isinstance(args[0][1], tuple) and all(isinstance(x, str) for x in args[0][1]):
+                return C(recv.join(args[0][1]))
             if isinstance(recv, HDict) and f[2] == "get":
                 try:
                     return C(recv.get(*[a[1] for a in args]))
                 except Exception:
                     return s
         return s
+
+    def _map_fold(self, s: Sym, n: ast.Call) -> Optional[Sym]:
+        """map(F, <constant tuple>) with an inlineable F -> constant tuple"""
+        if s[1] != N("map") or len(s[2]) != 2 or s[3]:
+            return None
+        f, xs = s[2]
+        if xs[0] != "c" or not isinstance(xs[1], tuple) or dotted(f) not in self.i.inline:
+            return None
+        out = []
+        for x in xs[1]:
+            r = self._maybe_inline(("call", f, (C(x),), ()), n)
+            if r is None or r[0] != "c":
+                return None
+            out.append(r[1])
+        return C(tuple(out))
 
     def _maybe_inline(self, s: Sym, n: ast.Call) -> Optional[Sym]:
         i = self.i
